@@ -8,5 +8,6 @@ for prop in sys.argv[1:]:
     src = os.path.join(HERE, "scratch", "proved_%s.json" % prop)
     d = json.load(open(src))
     assert d["tree"] == "/repo", "baseline must come from /repo"
-    json.dump(dict(property=prop, repo_head=d["head"], discharged=d["discharged"]), open(os.path.join(HERE, "baseline", prop + ".json"), "w"))
+    json.dump(dict(property=prop, repo_head=d["head"], discharged=d["discharged"], loop_headers=d.get("loop_headers", {})),
+              open(os.path.join(HERE, "baseline", prop + ".json"), "w"))
     print(prop, len(d["discharged"]), "obligations")
